@@ -1246,16 +1246,20 @@ class FS(object):
         validate_open_mode(mode)
         bin_mode = mode.replace("t", "")
         bin_file = self.openbin(path, mode=bin_mode, buffering=buffering)
-        io_stream = iotools.make_stream(
-            path,
-            bin_file,
-            mode=mode,
-            buffering=buffering,
-            encoding=encoding or "utf-8",
-            errors=errors,
-            newline=newline,
-            **options
-        )
+        try:
+            io_stream = iotools.make_stream(
+                path,
+                bin_file,
+                mode=mode,
+                buffering=buffering,
+                encoding=encoding or "utf-8",
+                errors=errors,
+                newline=newline,
+                **options
+            )
+        except Exception:
+            bin_file.close()
+            raise
         return io_stream
 
     def opendir(
